@@ -10,19 +10,36 @@ for d in ${1:-/verif/seeded/*}; do
   [ -f $d/patch.diff ] || continue
   pid=$(basename $d | cut -d- -f1)
   git -C $WT checkout -q -- . ; git -C $WT apply $d/patch.diff || { echo "$d: patch does not apply"; continue; }
-  s=$(date +%s)
-  VERIF_REPO=$WT ./check $pid --tier ${TIER:-quick} > $d/detect.log 2>&1; rc=$?
-  e=$(date +%s)
-  python3 - "$d" "$pid" "$rc" "$((e-s))" <<'PY'
+  # the property's own check first, then the checks whose contracts cover neighbouring code of the same mechanism
+  case $pid in C19) rel="C19 C22";; C22) rel="C22 C19";; C37) rel="C37 C13";; C38) rel="C38 C12 C13";; C12) rel="C12 C38";; C13) rel="C13 C38 C37";; *) rel="$pid";; esac
+  : > $d/detect.log
+  for chk in $rel; do
+    s=$(date +%s)
+    VERIF_REPO=$WT ./check $chk --tier ${TIER:-quick} > $d/detect_$chk.log 2>&1; rc=$?
+    e=$(date +%s)
+    echo "== $chk rc=$rc secs=$((e-s))" >> $d/detect.log; grep -E "^VIOLATION|failed-obligation:|^C[0-9]+:" $d/detect_$chk.log | head -12 >> $d/detect.log
+    rm -f $d/detect_$chk.log
+    [ $rc -eq 1 ] && break
+  done
+  python3 - "$d" "$pid" <<'PY'
 import json,sys,re
-d,pid,rc,secs=sys.argv[1:5]
-log=open(d+"/detect.log").read().splitlines()
-viol=[l for l in log if l.startswith("VIOLATION")]
-obl=[l.strip() for l in log if l.strip().startswith("failed-obligation:")]
-json.dump(dict(check=pid, exit_code=int(rc), seconds=int(secs), detected=(int(rc)==1), violation_lines=len(viol),
-               reproduced_on_real_code=any("no-failing-input-found" not in l for l in viol) if viol else False,
-               first_failed_obligations=obl[:3], summary=log[-1] if log else ""), open(d+"/detect.json","w"), indent=1)
-print(d, "rc=%s"%rc, (obl[:1] or [""])[0][:140])
+d,pid=sys.argv[1:3]
+runs=[]; cur=None
+for l in open(d+"/detect.log").read().splitlines():
+    m=re.match(r"== (C\d+) rc=(\d+) secs=(\d+)", l)
+    if m:
+        cur=dict(check=m.group(1), exit_code=int(m.group(2)), seconds=int(m.group(3)), violation_lines=0, reproduced_on_real_code=False, first_failed_obligations=[], summary="")
+        runs.append(cur); continue
+    if cur is None: continue
+    if l.startswith("VIOLATION"):
+        cur["violation_lines"]+=1
+        if "no-failing-input-found" not in l: cur["reproduced_on_real_code"]=True
+    elif l.strip().startswith("failed-obligation:") and len(cur["first_failed_obligations"])<3:
+        cur["first_failed_obligations"].append(l.strip()[:220])
+    elif re.match(r"C\d+:", l): cur["summary"]=l
+det=[r for r in runs if r["exit_code"]==1]
+json.dump(dict(property=pid, detected=bool(det), detected_by=[r["check"] for r in det], runs=runs), open(d+"/detect.json","w"), indent=1)
+print(d, "detected_by=%s" % [r["check"] for r in det], (det[0]["first_failed_obligations"][:1] if det else [""])[0][:120] if det else "")
 PY
 done
 git -C /repo worktree remove --force $WT
